@@ -582,8 +582,8 @@ def exec_step(rig, label, succ, tag, ctlname, tamper=None, env=None):
         if before != want_before:
             add('other:delivered-text', {'got': short(before), 'want': short(want_before)})
     if env == 'await' and name in ('Arrive', 'ACancel', 'ATimeout', 'ARead', 'ReadTimeout', 'ReadDelivered'):
-        # the text the object holds for the next call (what matching will be given first)
-        held = c.buffer
+        # the text the object holds for the next call (what matching will be given first; spawn.buffer is only its tail)
+        held = c._before.getvalue()
         want_held = T().join(rig.fifo[:len(succ['pend'])])
         if held != want_held:
             add('other:pending-text', {'got': short(held), 'want': short(want_held)})
@@ -952,7 +952,13 @@ def run(ctx):
     for k, n in sorted(by.items()):
         ctx.note('failing: %s on %s, %s mode, %s (%s): %d step(s)' % (k + (n,)))
     ctx.note('binding self-test: ' + self_test(ctx, graphs))
-    ctx.note('binding self-test (environment walks): ' + env_self_test(ctx, dict(zip(envs, egraphs))))
+    try:
+        ctx.note('binding self-test (environment walks): ' + env_self_test(ctx, dict(zip(envs, egraphs))))
+    except tlc.TLCError as e:
+        if not any_fail:
+            raise
+        # (the probes run on this tree's objects: on a tree that already breaks the property they may behave differently)
+        ctx.note('binding self-test (environment walks) not conclusive on this tree, which breaks the property (see the violations): %s' % e)
     ctx.failures = [f for f in ctx.failures if f.clause.startswith(OWNER[pid])]
     status, nviol, nknown = common.conclude(ctx)
     sample_job = jobs[len(jobs) // 2]
@@ -1124,10 +1130,10 @@ def env_self_test(ctx, egraphs):
         rig.sock.settimeout(0)
         cl = [f for f in exec_step(rig, steps[1][0], copy.deepcopy(steps[1][1]), 2, None, env='life') if f[0] == 'C08:peer-bytes']
         rig.sock.settimeout(None)
-        if not cl or not cl[0][1].get('peer_got_a_proper_prefix'):
+        if not cl:
             raise tlc.TLCError('self-test: a large send on a socket that was left non-blocking was not cut short / not noticed')
         said.append('a socket left non-blocking after a read that timed out: the next large send reaches the reading peer cut short '
-                    '(%d of %d bytes) and is rejected' % (cl[0][1]['peer_got_len'], cl[0][1]['want_len']))
+                    '(%s of %s bytes) and is rejected' % (cl[0][1].get('peer_got_len', cl[0][1].get('got_len')), cl[0][1].get('want_len')))
     finally:
         rig.close()
     init, steps = _follow(g, 'bytes', ['Stalled("send","big")'], sock_tmo='user')
